@@ -47,8 +47,15 @@ func c16cScenario(name string, o tOpt, d int) vr.Scenario {
 			if len(rest) != 0 {
 				return V("query-stream-trailing-bytes", fmt.Sprintf("connection %d: %d bytes after the last complete frame", cn.idx, len(rest)))
 			}
+			seenCall := map[int]int{}
 			for _, m := range msgs {
 				ci := s.callOf(m)
+				if ci >= 0 && s.tcp {
+					// a stream connection carries the query of a call once: nothing is re-sent on TCP
+					if seenCall[ci]++; seenCall[ci] > 1 {
+						return V("query-frame-duplicated", fmt.Sprintf("connection %d carries the frame of call %d %d times (whose bytes went out in place of another caller's?)", cn.idx, ci, seenCall[ci]))
+					}
+				}
 				if ci < 0 {
 					return V("query-frame-garbled", fmt.Sprintf("connection %d: a frame of %d bytes is not one of the callers' queries", cn.idx, len(m)))
 				}
